@@ -7,6 +7,7 @@ The generator never classifies data as valid or invalid: the reference model doe
 from __future__ import annotations
 
 import copy
+import math
 import itertools
 from typing import Any, Dict, Iterator, List, Sequence, Tuple
 
@@ -52,8 +53,17 @@ def _con_valid(base: T, cons: Dict[str, Any], ctx: Ctx) -> List[Any]:
         else:
             lo = 0
         m = cons.get("mult_of", 1)
-        while lo % m:
-            lo += 1
+        if base.kind == "int" and isinstance(lo, float):
+            lo = math.ceil(lo)
+        if isinstance(m, float) and not m.is_integer():
+            lo = math.ceil(lo / m) * m
+            if base.kind == "int":
+                while lo != int(lo):
+                    lo += m
+                lo = int(lo)
+        else:
+            while lo % m:
+                lo += 1
         out = [lo]
         hi = lo + m
         if ("max" not in cons or hi <= cons["max"]) and ("exc_max" not in cons or hi < cons["exc_max"]):
